@@ -32,6 +32,10 @@ pub fn sylt_bin() -> String {
 /// status. It never executes Lua. Plan comes from the environment.
 pub fn lua_stub_main() -> i32 {
     let mode = std::env::var("SYLT_SIM_LUA_MODE").unwrap_or_default();
+    if let Some(ms) = std::env::var("SYLT_SIM_LUA_DELAY_MS").ok().and_then(|v| v.parse::<u64>().ok()) {
+        // a peer that is slow to start reading its input
+        std::thread::sleep(Duration::from_millis(ms));
+    }
     let mut buf = Vec::new();
     if mode != "nodrain" {
         let _ = std::io::stdin().read_to_end(&mut buf);
@@ -166,7 +170,10 @@ pub fn all_cells(req_a: &str, req_b: &str) -> Vec<Cell> {
     let mut out = Vec::new();
     let flags: Vec<(Option<String>, bool)> = vec![(None, false), (Some(req_a.into()), false), (None, true), (Some(req_b.into()), true)];
     for (req, ns) in &flags {
-        for peer in ["P1-ok", "P2-stderr-exit1", "P2b-long-stderr-exit1", "P3-stderr-exit0", "P4-silent-exit1"] {
+        for peer in ["P1-ok", "P1s-slow-reader", "P2-stderr-exit1", "P2b-long-stderr-exit1", "P3-stderr-exit0", "P4-silent-exit1", "P0-lua-absent"] {
+            if (peer == "P1s-slow-reader" || peer == "P0-lua-absent") && (req.is_some() || *ns) {
+                continue;
+            }
             out.push(Cell { mode: "run".into(), require: req.clone(), no_std: *ns, target: String::new(), peer: peer.into(), input: "present".into(), spelling: "absolute".into(), fault: None });
         }
         for target in ["O1-absent", "O2-existing", "O2b-existing-longer", "O3-parent-missing", "O4-is-directory", "O5-component-is-file", "O6-dev-full"] {
@@ -476,7 +483,8 @@ impl Runner {
         cmd.arg("prlimit").arg("--as=4294967296").arg(&self.bin).args(&args);
         cmd.current_dir(&cwd)
             .env_clear()
-            .env("PATH", &self.path_env)
+            .env("PATH", if cell.peer == "P0-lua-absent" { "/nonexistent-directory" } else { self.path_env.as_str() })
+            .env("SYLT_SIM_LUA_DELAY_MS", if cell.peer == "P1s-slow-reader" { "120" } else { "0" })
             .env("HOME", root)
             .env("SYLT_SIM_LUA_CAPTURE", &capture)
             .env("SYLT_SIM_LUA_STDERR", stderr_text)
@@ -485,6 +493,20 @@ impl Runner {
             .stdout(Stdio::piped())
             .stderr(Stdio::piped());
         for (k, v) in extra_env {
+            if k == "SYLT_SIM_SOURCE_MTIME" {
+                // the sources carry a time stamp far in the past or in the future
+                for p in prog.files.keys() {
+                    let real = format!("{}{}", root, p.strip_prefix(SIM_ROOT).unwrap_or(p));
+                    let _ = Command::new("touch").arg("-d").arg(format!("@{}", v)).arg(&real).stdout(Stdio::null()).stderr(Stdio::null()).status();
+                }
+                continue;
+            }
+            if k == "SYLT_SIM_CLOCK_OFFSET" {
+                // the clock seam: every clock the process reads is shifted (LD_PRELOAD shim, when it could be built)
+                if let Ok(shim) = std::env::var("SYLT_SIM_CLOCK_SHIM") {
+                    cmd.env("LD_PRELOAD", shim);
+                }
+            }
             cmd.env(k, v);
         }
         let mut obs = ProcObs::default();
@@ -613,7 +635,14 @@ pub fn judge(cell: &Cell, exp: &Expected, obs: &ProcObs, root: &str, preamble: &
         // (the caller computed the expectation accordingly)
     }
     let target_ok = cell.mode != "file" || matches!(cell.target.as_str(), "O1-absent" | "O2-existing" | "O2b-existing-longer" | "O8-left-over-from-previous-compile");
-    let peer_ok = cell.mode != "run" || cell.peer == "P1-ok";
+    if cell.mode == "run" && cell.peer == "P0-lua-absent" {
+        // no interpreter to run the program with: whatever the program is, this is not a success
+        if exit == 0 {
+            vs.push(v("exit-status", "zero-without-interpreter", format!("[{}] there is no lua on PATH but the exit status is 0", label)));
+        }
+        return CellVerdict { violations: vs, observations: notes };
+    }
+    let peer_ok = cell.mode != "run" || cell.peer == "P1-ok" || cell.peer == "P1s-slow-reader";
     let should_succeed = exp.accepted && target_ok && peer_ok;
 
     // B1 exit status
@@ -1148,6 +1177,9 @@ pub fn replay(doc: &J, id: &str) -> i32 {
 
 const ENVS: &[&[(&str, &str)]] = &[
     &[],
+    &[("SYLT_SIM_CLOCK_OFFSET", "86400"), ("SYLT_SIM_SOURCE_MTIME", "978307200")],
+    &[("SYLT_SIM_CLOCK_OFFSET", "1000000000"), ("TZ", "Asia/Kathmandu")],
+    &[("SYLT_SIM_CLOCK_OFFSET", "-1500000000"), ("SYLT_SIM_SOURCE_MTIME", "2147483000")],
     &[("NO_COLOR", "1"), ("TERM", "dumb")],
     &[("TERM", "xterm-256color"), ("LANG", "sv_SE.UTF-8"), ("TZ", "Pacific/Kiritimati")],
     &[("RUST_BACKTRACE", "1"), ("LANG", "C")],
@@ -1196,7 +1228,7 @@ fn replay_c16(doc: &J, prog: &Program, runner: &Runner, id: &str) -> i32 {
 
 pub fn run_c16_processes(tier: &str, batch_seed: u64) -> LayerBResult {
     let n_programs: u64 = std::env::var("SYLT_SIM_C16_PROGRAMS").ok().and_then(|v| v.parse().ok()).unwrap_or(if tier == "quick" { 160 } else { 2_000 });
-    let reps: usize = std::env::var("SYLT_SIM_C16_REPS").ok().and_then(|v| v.parse().ok()).unwrap_or(if tier == "quick" { 7 } else { 32 });
+    let reps: usize = std::env::var("SYLT_SIM_C16_REPS").ok().and_then(|v| v.parse().ok()).unwrap_or(if tier == "quick" { 10 } else { 40 });
     if !Path::new(&sylt_bin()).exists() {
         let mut cov = J::obj();
         cov.put("harness.layer_b_binary_missing", J::u(1));
@@ -1279,6 +1311,7 @@ pub fn run_c16_processes(tier: &str, batch_seed: u64) -> LayerBResult {
                 .set("repetitions_per_input", J::u(reps as u64))
                 .set("inputs_rejected", J::u(r.2))
                 .set("environments", J::u(ENVS.len() as u64))
+                .set("clock_seam", J::s(if std::env::var("SYLT_SIM_CLOCK_SHIM").is_ok() { "LD_PRELOAD shim shifting clock_gettime/gettimeofday/time by +1 day, +31 years, -47 years in three of the environments; source mtimes set to 2001 and 2038 in two" } else { "not available (no C compiler): clock not varied" }))
                 .set("hashing", J::s("real OS entropy per process (hook compiled in, seed unset), plus two fixed seeds via SYLT_VERIF_HASH_SEED"))
                 .set("wall_s", J::Num((t0.elapsed().as_secs_f64() * 10.0).round() / 10.0)),
         );
